@@ -90,21 +90,61 @@ def oracle(program, blocksize):
             pass
     if not failures and len(program['ops']) % 3 == 0 and not run.model.has['udf'] and run.model.hybrid is None:
         cut_image_stage(run, img, blocksize, failures)
+    if not failures and run.model.boot is not None and len(run.model.boot['entries']) >= 2 and run.model.hybrid is None:
+        alt = headerless_catalog(img)
+        if alt is not None:
+            cut_image_stage(run, alt, blocksize, failures, variant='headerless-catalog')
     run.close()
     return run, failures
 
 
-def cut_image_stage(run, img, blocksize, failures):
+def headerless_catalog(img):
+    """The same image with a boot catalog as some mastering tools write it: the entries of the sections follow the initial
+    entry directly, without section headers (seen on Mageia ISOs).  None if the catalog is not of the expected shape."""
+    import struct
+    if img[17 * 2048 + 7:17 * 2048 + 30] != b'EL TORITO SPECIFICATION':
+        return None
+    cat = struct.unpack_from('<L', img, 17 * 2048 + 0x47)[0] * 2048
+    body = img[cat + 64:cat + 2048]
+    entries = []
+    pos = 0
+    while pos + 32 <= len(body):
+        rec = body[pos:pos + 32]
+        if rec[0] in (0x90, 0x91):
+            n = struct.unpack_from('<H', rec, 2)[0]
+            for k in range(n):
+                e = body[pos + 32 + 32 * k:pos + 64 + 32 * k]
+                if len(e) < 32 or e[0] not in (0x88, 0x00):
+                    return None
+                entries.append(e)
+            pos += 32 + 32 * n
+            if rec[0] == 0x91:
+                break
+        else:
+            break
+    if not entries or len(entries) > 20:
+        return None
+    new = bytearray(img)
+    blob = b''.join(entries)
+    new[cat + 64:cat + 2048] = blob + bytes(2048 - 64 - len(blob))
+    return bytes(new)
+
+
+def cut_image_stage(run, img, blocksize, failures, variant='cut'):
     """An image that lost its last sector(s) and that the library still opens is an existing image like any other: what
     open() shows of it (names, lengths, bytes) is what a generation later has to show again, next to the one file added.
-    No model here: the library's own view of the cut image is the reference."""
+    No model here: the library's own view of the cut image is the reference.  (variant 'headerless-catalog': the image is
+    not cut, its boot catalog is rewritten without section headers.)"""
     m = run.model
     k = 1 + len(run.ops) % 2
-    if len(img) <= (40 + k) * 2048:
-        return
-    cut = open_image(img[:-k * 2048])
+    if variant == 'cut':
+        if len(img) <= (40 + k) * 2048:
+            return
+        cut = open_image(img[:-k * 2048])
+    else:
+        cut = open_image(img)
     if isinstance(cut, Exception):
-        run.stats['cut_image_refused'] = run.stats.get('cut_image_refused', 0) + 1
+        run.stats['%s_image_refused' % variant] = run.stats.get('%s_image_refused' % variant, 0) + 1
         return
     relocs = bool(m.relocated_dirs())
     kw = dict(physical_iso=not relocs, logical_iso_paths=[p for p in m.t['iso'] if p != '/'] if relocs else None)
@@ -123,20 +163,20 @@ def cut_image_stage(run, img, blocksize, failures):
         cut.write_fp(out)
         cut.close()
     except Exception as e:     # noqa
-        failures.append(('C02/cut-image/edit-or-write-raised/' + exc_signature(e), 'cut-image', 'an image cut by %d sector(s) opens, but adding a file and writing raised %s: %s' % (k, type(e).__name__, e)))
+        failures.append(('C02/%s-image/edit-or-write-raised/' % variant + exc_signature(e), 'cut-image', 'an image (%s, %d) opens, but adding a file and writing raised %s: %s' % (variant, k, type(e).__name__, e)))
         return
     new = open_image(out.getvalue())
     if isinstance(new, Exception):
-        failures.append(('C02/cut-image/reopen/' + exc_signature(new), 'cut-image', 'an image cut by %d sector(s) opens, is edited and written; the result does not open: %s' % (k, new)))
+        failures.append(('C02/%s-image/reopen/' % variant + exc_signature(new), 'cut-image', 'an image cut by %d sector(s) opens, is edited and written; the result does not open: %s' % (k, new)))
         return
     try:
         v2 = api_view(new, m.has, bool(m.rr), blocksize, **kw)
     except Exception as e:     # noqa
-        failures.append(('C02/cut-image/view-raised/' + exc_signature(e), 'cut-image', 'reading the generation after the cut image raised %s: %s' % (type(e).__name__, e)))
+        failures.append(('C02/%s-image/view-raised/' % variant + exc_signature(e), 'cut-image', 'reading the generation after the cut image raised %s: %s' % (type(e).__name__, e)))
         new.close()
         return
     new.close()
-    run.stats['cut_images_compared'] = run.stats.get('cut_images_compared', 0) + 1
+    run.stats['%s_images_compared' % variant.replace('-', '_')] = run.stats.get('%s_images_compared' % variant.replace('-', '_'), 0) + 1
     # what the library writes into a file itself follows the layout and may change with it: the boot catalog, and bytes 8..64 of
     # a boot file with a boot info table (only their lengths are compared)
     volatile = set()
@@ -153,8 +193,8 @@ def cut_image_stage(run, img, blocksize, failures):
                 continue
             if b != a:
                 what = 'lost' if b is None else ('length' if a[1] != b[1] else 'differs')
-                failures.append(('C02/cut-image/%s/%s' % (ns, what), 'cut-image',
-                                 'image cut by %d sector(s): %s path %r was %r when the cut image was opened and is %r one generation (and one added file) later' % (k, ns, path[:60], a, b)))
+                failures.append(('C02/%s-image/%s/%s' % (variant, ns, what), 'cut-image',
+                                 'image (' + variant + ') cut by %d sector(s): %s path %r was %r when the cut image was opened and is %r one generation (and one added file) later' % (k, ns, path[:60], a, b)))
                 return
 
 
